@@ -228,6 +228,44 @@ def work_limit_hits(job):
     return r
 
 
+CONTEXTS = [('image-alt', '![%s](u.png)\n'), ('link-text', '[%s](http://example.com/)\n'), ('link-title', '[t](http://example.com/ "%s")\n'), ('atx-heading', '# %s #\n'),
+            ('setext-heading', '%s\n=====\n'), ('table-cell', '| %s | b |\n|---|---|\n| c | d |\n'), ('footnote-inline', 'x[^%s]\n'), ('emphasis', '*%s*\n'),
+            ('list-item', '* %s\n* other\n'), ('definition', 'term\n: %s\n'), ('reference-definition', '[foo]: %s\n\n[foo]\n'), ('caption', '| a |\n|---|\n| b |\n[%s]\n'),
+            ('citation-locator', '[%s][#c]\n\n[#c]: cite\n'), ('metadata-value', 'Title: %s\n\nbody\n'), ('abbreviation-def', '[>AB]: %s\n\nAB\n'), ('glossary-inline', '[?(term) %s]\n')]
+
+
+def work_context(job):
+    """the same nest inside another syntactic position (image alt, link text, heading, cell, note...): the helper routines that print or scan those
+    positions must be as bounded as the main writers -- stack high-water compared with the bare nest at the same size"""
+    seed, nidx, nbytes = job
+    r = core.JobResult()
+    name, o, c, fill = CONSTRUCTS[nidx]
+    nest = make_input(name, o, c, fill, nbytes, True).decode().rstrip('\n')
+    base = run_cost('cov', D.FMT['html'], D.EXT_CLI, (nest + '\n').encode(), timeout=120)
+    r.evaluations += 1
+    if not (isinstance(base.get('rc'), int) and base['rc'] == 0 and 'stack' in base):
+        return r
+    for cname, tpl in CONTEXTS:
+        data = (tpl % nest).encode()
+        for fmt in (D.FMT['html'], D.FMT['latex']):
+            res = run_cost('cov', fmt, D.EXT_CLI, data, timeout=120)
+            r.evaluations += 1
+            r.stats['child_runs_nest_in_context'] += 1
+            if res['rc'] == 'timeout':
+                continue
+            if res['rc'] != 0:
+                sig = signal.Signals(-res['rc']).name if isinstance(res['rc'], int) and res['rc'] < 0 else 'rc%s' % res['rc']
+                r.violate('crash:%s:%s:in-%s' % (sig, name, cname), '%s nest of %d bytes inside a %s (%s): child ended with %s' % (name, nbytes, cname, D.FMT_NAME[fmt], sig),
+                          dict(construct=name, context=cname, bytes=nbytes, fmt=fmt), res.get('err'))
+                continue
+            r.distinct.add((name, cname, fmt))
+            r.sets['context_stack_ratio_x10'].add(int(10 * res['stack'] / max(1, base['stack'])))
+            if res['stack'] > 2 * base['stack'] + 131072:
+                r.violate('stack-grows:%s:in-%s' % (name, cname), '%s nest of %d bytes inside a %s (%s): stack high-water %d KiB vs %d KiB for the bare nest -- a helper recurses without the depth limit' %
+                          (name, nbytes, cname, D.FMT_NAME[fmt], res['stack'] // 1024, base['stack'] // 1024), dict(construct=name, context=cname, bytes=nbytes, fmt=fmt, highwater=[base['stack'], res['stack']]))
+    return r
+
+
 def work_cost(job):
     seed, name, data, ks, fmt = job
     r = core.JobResult()
@@ -298,6 +336,8 @@ def main():
         fm = fmts_all if thorough else [D.FMT['html'], rng.choice(fmts_all[1:])]
         jobs.append((chk.seed, idx, sizes, fm, 300000 if thorough else 20000))
     chk.run_jobs(work_stack, jobs)
+    cx = [i for i, cst in enumerate(CONSTRUCTS) if cst[0] in (('bracket', 'paren', 'star-emph', 'critic-add') if not thorough else ('bracket', 'image', 'paren', 'angle', 'star-emph', 'strong', 'dquote', 'critic-add', 'critic-sub', 'math-paren'))]
+    chk.run_jobs(work_context, [(chk.seed, i, 100000 if not thorough else 400000) for i in cx])
     lh = [i for i, cst in enumerate(CONSTRUCTS) if cst[0] in (('blockquote', 'bracket', 'star-emph', 'critic-add') if not thorough else [x[0] for x in CONSTRUCTS if x[1] is not None])]
     chk.run_jobs(work_limit_hits, [(chk.seed, i, 1005, 200000 if not thorough else 1000000) for i in lh])
     # cost
